@@ -43,7 +43,10 @@ type wtCase struct {
 	Pool     bool    `json:"pool"`
 	Frag     int     `json:"read_fragment"` // 0 whole, n>0 max n bytes per read
 	Msgs     []wtMsg `json:"msgs"`
-	SeedInfo string  `json:"seed"`
+	// ReadLimit (0 = none) is set on the reading connection, as the engine does on every
+	// connection; it is never below the longest message of the case, so nothing may be refused
+	ReadLimit int64  `json:"read_limit"`
+	SeedInfo  string `json:"seed"`
 }
 
 var wtAPIs = []string{"message", "writer", "string", "readfrom", "readfrom-eof", "prepared"}
@@ -154,6 +157,15 @@ func genWTCase(rng *rand.Rand, big bool) wtCase {
 			m.Chunks = chunking(rng, m.Len)
 		}
 		c.Msgs = append(c.Msgs, m)
+	}
+	if rng.IntN(3) == 0 {
+		for _, m := range c.Msgs {
+			c.ReadLimit = max(c.ReadLimit, int64(m.Len))
+		}
+		c.ReadLimit += int64([]int{0, 1, 100}[rng.IntN(3)])
+		if c.ReadLimit == 0 {
+			c.ReadLimit = 1
+		}
 	}
 	for i := range c.Msgs[:len(c.Msgs)-1] {
 		// NextWriter (and WriteMessage, its helper) finish a writer the application left open;
@@ -309,6 +321,14 @@ func runWTCase(c wtCase) (wire []byte, got []refcodec.WTMsg, readErr error, writ
 	b := webtrans.NewConn(nil, sb, !c.Server, c.RBuf, c.WBuf, nil, nil, nil)
 	if c.Frag > 0 {
 		sb.Conn.FragmentReads(c.Frag)
+	}
+	if c.ReadLimit > 0 {
+		// the connections of this rig have no session: a limit violation (none is due) reaches the
+		// harness's stand-in through the wt.nilSession hook instead of a nil dereference
+		g := rig.NewGate()
+		g.Watch(sb)
+		defer g.Unwatch(sb)
+		b.SetReadLimit(c.ReadLimit)
 	}
 	for _, m := range c.Msgs {
 		if err := writeWT(a, m); err != nil {
@@ -577,6 +597,7 @@ func runC14TransportWire(rng *rand.Rand, r *rep.Report) (key, msg string, frames
 			opts *packet.Options
 		}
 		var sent []bm
+		bursts := rng.IntN(2) == 0
 		for n := 0; n < nMsg; n++ {
 			m := bm{bin: rng.IntN(2) == 0}
 			size := []int{1, 5, 125, 126, 127, 300, 65535, 65536, 70000}[rng.IntN(9)]
@@ -597,9 +618,17 @@ func runC14TransportWire(rng *rand.Rand, r *rep.Report) (key, msg string, frames
 				sent = append(sent, m)
 			}
 		}
-		for _, m := range sent {
+		held := false
+		for mi, m := range sent {
 			fb, fd := refcodec.EncodeFrame(4, refcodec.Packet{Type: refcodec.Message, Data: m.data, Binary: m.bin}, false)
 			want = append(want, refcodec.WTFrame(fb, fd)...)
+			if bursts && mi == 1 && nSess == 2 {
+				// the writer goroutines of the first message are held before they start (hook
+				// wt.send.start, no lock is held there): everything sent meanwhile is buffered and
+				// leaves as ONE batch of several packets, text and binary mixed
+				w.Gate.Arm("wt.send.start", nSess)
+				held = true
+			}
 			for _, sid := range w.SocketIDs() {
 				var rd io.Reader
 				if m.bin {
@@ -609,7 +638,21 @@ func runC14TransportWire(rng *rand.Rand, r *rep.Report) (key, msg string, frames
 				}
 				w.SocketByID(sid).Send(rd, m.opts, nil)
 			}
-			time.Sleep(time.Millisecond)
+			// in bursts: what is sent while the transport is still writing the previous message
+			// leaves as one batch of several packets (text and binary mixed)
+			if held {
+				rig.Settle()
+				continue
+			}
+			if !bursts || rng.IntN(4) == 0 {
+				time.Sleep(time.Millisecond)
+			}
+		}
+		if held {
+			if n := len(w.Gate.Parked()); n > 0 {
+				r.Obs("gate:wt_writers_held_while_a_mixed_batch_builds_up", int64(n))
+			}
+			w.Gate.ReleaseAll()
 		}
 		time.Sleep(100 * time.Millisecond)
 		rig.Wait()
